@@ -19,6 +19,7 @@ Apply(m, e) ==
     [] e.ev = "rem"    -> SRem(m, e.t, e.n)
     [] e.ev = "settle" -> SSettle(m)
     [] e.ev = "view"   -> SView(m, e.t, Range(e.s))
+    [] e.ev = "select" -> SSelect(m, e.t, e.own, e.self, e.err)
     [] OTHER           -> m
 TNext == l <= Len(Log) /\ l' = l + 1 /\ mon' = Apply(mon, Log[l]) /\ bad' = mon'.bad
 TSpec == TInit /\ [][TNext]_tvars
